@@ -21,6 +21,7 @@ theorem calm_of_noExt (s : State) (as : List Act) (h : NoExt as) : Calm s as := 
     | put e hr => rfl
     | run => rfl
     | disc => rfl
+    | notify => rfl
 
 /-- While `Run` is not active the slot of the next block is empty (and before `Run` started without a signal
 nothing was queued at all). -/
@@ -38,6 +39,9 @@ theorem sleepy_apply (s : State) (a : Act) (hf : Fresh s) (hk : Sleepy s) (h1 : 
   cases a with
   | adv => exact absurd rfl h1
   | disc => exact absurd rfl h2
+  | notify =>
+    simp only [apply, notify, hk.nd, Bool.false_eq_true, if_false]
+    exact ⟨rfl, fun _ hs => by simp at hs, fun _ hs => by simp at hs, hk.notDone⟩
   | put e hr =>
     simp only [apply]
     rcases put_cases s e (min hr s.height) with h | h | ⟨_, _, _, h4, h5⟩
